@@ -392,6 +392,19 @@ Theorem C11_pstmt_def : forall ready o code,
 Proof. exact pstmt_unfold. Qed.
 Print Assumptions C11_pstmt_def.
 
+(* REVIEW_E E-4: WHY a pass happens only when the environment gives a reason.  The loop model takes one
+   environment input per pass ("the poll call returned"); that the real poll call does not return by itself
+   all the time is (1) this theorem - the time-out EventLoop::loop hands to Poller::poll is the constant
+   kPollTimeMs, which is positive (10 s on the pinned tree), and both back-ends hand their parameter
+   `timeoutMs` to ::epoll_wait / ::poll untouched - plus (2) the kernel contract that a call with a positive
+   time-out returns only for readiness, a signal or expiry.  A zero time-out (kPollTimeMs = 0, poll(0, ..),
+   ::epoll_wait(.., 0)) IS the loop spinning; it breaks this theorem and the idle scenarios of bin/check C11. *)
+Theorem C11_poll_timeout_positive :
+  eventloop_poll_timeout_is_kPollTimeMs = true /\ 0 < eventloop_kPollTimeMs /\
+  epoll_poll_passes_timeout = true /\ ppoll_poll_passes_timeout = true.
+Proof. exact (conj eq_refl (conj eq_refl (conj eq_refl eq_refl))). Qed.
+Print Assumptions C11_poll_timeout_positive.
+
 (* EventLoop::loop: the condition of its while loop is `!quit_`, and its body and doPendingFunctors
    AS THEY STAND IN THE SOURCE (statement codes regenerated, anything unknown = abort), run statement
    by statement by [iter_src] / [lstmt] / [dstmt], are the loop pass [iter] of C11_Model:
@@ -479,7 +492,13 @@ Theorem C11_interrupt_burst_then_normal : forall (U : Type) (hnd fnb : behaviour
 Proof. exact interrupt_burst_then_normal. Qed.
 Print Assumptions C11_interrupt_burst_then_normal.
 
-(* no spinning.  (1) An idle loop hit by k interrupts is afterwards exactly where it was - same user
+(* no spinning - what the model can and cannot say (REVIEW_E E-4).  [loop_run] makes ONE pass per environment
+   input, by construction (it recurses on the input list): "no pass without a return of the poll call, one pass
+   per return" is the modelling of `while (!quit_) { ..poll..; }` whose tie to the source is
+   C11_loop_body_is_source (exactly one poll call per pass).  It does NOT say how often the poll call returns:
+   that is C11_poll_timeout_positive + the kernel (a positive time-out returns only for readiness, a signal,
+   expiry).  What IS a theorem about the loop's own contribution:
+   (1) An idle loop hit by k interrupts is afterwards exactly where it was - same user
    state, nothing pending, quit_ clear - with iteration_ + k: an interrupted pass leaves nothing behind
    (no functor, no wake-up, no change of anything a callback acts on) that could make the loop go round
    again by itself; every further pass needs a further return of the poll call, i.e. a further
@@ -499,8 +518,9 @@ Print Assumptions C11_poll_eintr_no_spin.
    the start followed by all that were queued, in queueing order (none lost, duplicated, reordered);
    events: the channels dispatched are exactly the entries reported by the successful poll calls
    (a failed call contributes none, none is dispatched twice);
-   iteration_ advances by the number of passes, which is at most the number of returns of the poll
-   call; the loop stops before the inputs are used up only with quit_ set; nothing aborts *)
+   iteration_ advances by the number of passes; the loop stops before the inputs are used up only with
+   quit_ set; nothing aborts.  ([length ts <= length ins] is structural - one pass per environment input, see
+   the comment of C11_poll_eintr_no_spin; it is stated for completeness, not as evidence against spinning.) *)
 Theorem C11_loop_conservation : forall (U : Type) (hnd fnb : behaviour U) src,
   src = epoll_src \/ src = ppoll_src ->
   forall ins l,
@@ -569,8 +589,16 @@ Proof. split; [reflexivity|]. vm_compute. eexists _, _, _. repeat split. Qed.
    direct read of errno before it).  A local copy of errno is canonicalised to `errno` in the guards above
    (acceptor_emfile_test, sendInLoop_fatal_test), so the guards say WHICH value is compared and this theorem
    says WHEN it is taken - which is what entitles the models to use one errno for both tests of a path.
-   Reverting the fix makes both facts false (and the clobbering-sink cases of bin/check C11 fail). *)
+   Reverting the fix makes both facts false (and the clobbering-sink cases of bin/check C11 fail).
+   Since REVIEW_E E-6 the two facts are false for ANY call / constructor / new / delete other than
+   __errno_location() on that path (a `::close(-1)` before the copy, a helper that logs), not only for a log
+   statement.  They are intra-procedural; the two callees between ::accept4 and Acceptor::handleRead are covered
+   one level each: sockets::accept copies errno right after ::accept4, each of its non-fatal switch groups is
+   exactly `errno = savedErrno; break;` and nothing but `return connfd;` follows (its own LOG_SYSERR sits in
+   between); Socket::accept makes no call on the failure path.  Anything deeper (what the kernel wrappers of libc
+   do, inlined helpers in other translation units) is residue. *)
 Theorem C11_errno_captured_before_log :
-  Acceptor_handleRead_tests_saved_errno = true /\ sendInLoop_tests_saved_errno = true.
-Proof. exact (conj eq_refl eq_refl). Qed.
+  Acceptor_handleRead_tests_saved_errno = true /\ sendInLoop_tests_saved_errno = true /\
+  sockets_accept_restores_errno = true /\ Socket_accept_keeps_errno = true.
+Proof. exact (conj eq_refl (conj eq_refl (conj eq_refl eq_refl))). Qed.
 Print Assumptions C11_errno_captured_before_log.
